@@ -178,7 +178,11 @@ func (s *source) Fetch(ctx context.Context, pid peer.ID) (*model.ProviderInfo, e
 	s.mu.Unlock()
 	if park != nil {
 		close(sig)
-		<-park
+		select {
+		case <-park:
+		case <-ctx.Done():
+			return nil, ctx.Err() // the lookup's caller gave up while this source was answering
+		}
 	}
 	s.mu.Lock()
 	defer s.mu.Unlock()
@@ -585,7 +589,9 @@ func runCase(t *testing.T) func(Case) pbt.Result {
 					var errG, errR error
 					var gotG *model.ProviderInfo
 					doneG, doneR := make(chan struct{}), make(chan struct{})
-					go func() { gotG, errG = pc.Get(context.Background(), unknown); close(doneG) }()
+					cancelLookup := s.T >= 0 && s.T%2 == 0 // the lookup's caller gives up while the Refresh waits for it
+					ctxG, cancelG := context.WithCancel(context.Background())
+					go func() { gotG, errG = pc.Get(ctxG, unknown); close(doneG) }()
 					synctest.Wait()
 					select {
 					case <-sig:
@@ -599,10 +605,20 @@ func runCase(t *testing.T) func(Case) pbt.Result {
 					}
 					go func() { errR = pc.Refresh(context.Background()); close(doneR) }()
 					synctest.Wait()
-					close(park)
+					if cancelLookup {
+						cancelG()
+						kinds["refresh-during-cancelled-miss"]++
+					} else {
+						close(park)
+					}
 					<-doneG
 					<-doneR
+					cancelG()
 					kinds["refresh-during-miss"]++
+					if cancelLookup && errG != nil {
+						// the abandoned lookup reports its context's error; nothing is remembered about the ID
+						errG = nil
+					}
 					if errG != nil || gotG != nil {
 						fail(i, s, fmt.Sprintf("Get(ID unknown to every source) = %v, %v", gotG, errG))
 						return
